@@ -41,7 +41,16 @@ TEMPLATES2 = {
     "blk2": [A.block([A.decl("w", INT), A.estmt(A.asg(V("y"), B("+", V("y"), V("w"))))])],
     "blk3": [A.block([A.decl("w", INT, V("a"))])],
     "blk4": [A.block([A.decl("w", INT), A.ret(V("w"))])],
+    # a block-local variable that carries the global's name (rejected today at both levels), read directly after its initialiser
+    "shadow": [A.block([A.decl("g", INT, B("*", V("x"), L(2))), A.estmt(A.asg(V("y"), V("g")))])],
+    # a single-component write to a vector directly followed by a constructor / a whole-vector use of it
+    "vset": [A.estmt(A.asg(A.swz(V("v3"), [2]), V("f")))],
+    "vidx": [A.estmt(A.asg(A.idx(V("v3"), L(1)), V("f")))],
+    "vcons": [A.estmt(A.asg(V("v4"), A.cons(A.vec("float", 4), [V("v3"), A.lit_f(1, 0)])))],
+    "vuse": [A.estmt(A.asg(V("v4"), A.cons(A.vec("float", 4), [A.lit_f(1, 1), B("*", V("v3"), A.lit_f(2, 0))])))],
 }
+
+GROUPS2 = [("acp", "ust", "tst", "scp", "s2st"), ("blk1", "blk2", "blk3", "blk4", "shadow"), ("vset", "vidx", "vcons", "vuse")]
 
 # longer copy chains (every statement reads the variable the previous one wrote), included at every length bound
 EXTRA = [("st", "ld", "gst", "gld"), ("st", "ld", "gst", "gld", "ld"), ("st", "ld", "gst", "gld", "ld", "gst", "gld", "if"),
@@ -53,15 +62,24 @@ def programs(maxlen):
     out = []
     idf = A.func("id", [("q", INT)], INT, A.block([A.estmt(A.asg(V("q"), B("+", V("q"), L(1)))), A.ret(V("q"))]))
     for n in range(1, maxlen + 1):
-        second = [q for q in itertools.product(list(TEMPLATES2) + ["st", "ld"], repeat=min(n, 3)) if any(nm in TEMPLATES2 for nm in q)] if n <= 3 else []
+        # second alphabet: all sequences of length <= 2 (with st / ld), and of length 3 within each group of related templates
+        if n <= 2:
+            second = [q for q in itertools.product(list(TEMPLATES2) + ["st", "ld"], repeat=n) if any(nm in TEMPLATES2 for nm in q)]
+        elif n == 3:
+            second = []
+            for grp in GROUPS2:
+                second += [q for q in itertools.product(list(grp) + ["st", "ld"], repeat=3) if any(nm in TEMPLATES2 for nm in q)]
+        else:
+            second = []
         for seq in list(itertools.product(names, repeat=n)) + (EXTRA if n == maxlen else []) + second:
             body = [A.decl("x", INT, V("a")), A.decl("y", INT, L(1)), A.decl("f", FLOAT, L(2)), A.decl("s", S0), A.decl("t", A.arr(INT, [2]))]
             if any(nm in TEMPLATES2 for nm in seq):
-                body += [A.decl("u", A.arr(INT, [2])), A.decl("s2", S0)]
+                body += [A.decl("u", A.arr(INT, [2])), A.decl("s2", S0), A.decl("v3", A.vec("float", 3), A.cons(A.vec("float", 3), [L(1), L(2), L(3)])), A.decl("v4", A.vec("float", 4))]
             for nm in seq:
                 body += TEMPLATES[nm] if nm in TEMPLATES else TEMPLATES2[nm]
             if any(nm in TEMPLATES2 for nm in seq):
-                body.append(A.estmt(A.asg(V("y"), B("+", B("*", V("y"), L(10)), B("+", B("+", A.idx(V("u"), L(0)), A.mem(V("s2"), "a")), A.mem(V("s"), "a"))))))
+                body.append(A.estmt(A.asg(V("f"), B("+", B("+", V("f"), A.swz(V("v4"), [0])), B("+", B("*", A.swz(V("v4"), [2]), L(10)), B("*", A.swz(V("v4"), [3]), L(100)))))))
+                body.append(A.estmt(A.asg(V("y"), B("+", B("*", V("y"), L(10)), B("+", B("+", A.idx(V("u"), L(0)), A.mem(V("s2"), "a")), B("+", A.mem(V("s"), "a"), B("*", B(">", V("f"), L(40)), L(5))))))))
             body.append(A.ret(B("+", B("*", V("x"), L(100)), B("+", V("y"), A.idx(V("t"), L(0))))))
             prog = A.prog([("g", INT)], [idf, A.func("f", [("a", INT)], INT, A.block(body), True)], [S0])
             out.append(("-".join(seq), prog))
